@@ -27,7 +27,7 @@ const (
 var c08Tris = []string{"excludesSpecialPaths", "planOrBypassOnSubGroups", "planShape", "scanEqCanonical",
 	"bucketPagingAfterFilter", "scanPagingAfterFilter", "labelReattach", "pagedQueriesBypass", "bucketChecksAttr",
 	"lookupInDedupes", "unionDedupes", "bucketWindowTimeOnly", "execPreconditions", "extractorsStandard", "canonStandard", "scanLeafStandard",
-	"bucketNotifyInsert", "bucketNotifyUpdate", "bucketNotifyDelete", "bucketPendingReplayed", "bucketLifecycleStandard"}
+	"bucketNotifyInsert", "bucketNotifyUpdate", "bucketNotifyDelete", "bucketPendingReplayed", "readerDrainsInFlight", "bucketLifecycleStandard"}
 
 var c08OpNames = map[string][2]string{ // proto name → (Lean constructor, show)
 	"hydrapb.Relational_EQUAL": {".eq", "eq"}, "hydrapb.Relational_NOT_EQUAL": {".ne", "ne"},
